@@ -361,6 +361,19 @@ func realMain(id, tier, replay string, workers int, seed int64, cache, work stri
 		capHit = true
 	}
 
+	if id == "C10" {
+		rv, rnote, err := racePass(tier, cache, work, wenv)
+		if err != nil {
+			fmt.Fprintln(os.Stderr, "BROKEN: free-running -race pass failed:", err)
+			return 2
+		}
+		notes = append(notes, rnote)
+		for _, v := range rv {
+			vios = append(vios, v)
+			vioCounts[v.Sig]++
+		}
+	}
+
 	// ---- classify violations
 	known := loadKnown()
 	bySig := map[string][]Violation{}
@@ -424,7 +437,7 @@ func realMain(id, tier, replay string, workers int, seed int64, cache, work stri
 		rwg.Wait()
 	}
 	for i, pd := range pend {
-		if pd.repro >= 0 && pd.repro < 5 {
+		if pd.repro >= 0 && pd.repro < 5 && !strings.Contains(pd.sig, "[nondet-ok]") {
 			fmt.Fprintf(os.Stderr, "BROKEN: violation %q reproduced only %d/5 times from %s — checker nondeterminism, not reported as a violation\n%s\n", pd.sig, pd.repro, pd.rp, pd.v.Detail)
 			exit = 2
 			continue
@@ -574,6 +587,10 @@ func setup(cache, work string) int {
 		fmt.Fprintln(os.Stderr, err)
 		return 2
 	}
+	if _, _, err := racePass("build-only", cache, work, os.Environ()); err != nil {
+		fmt.Fprintln(os.Stderr, err)
+		return 2
+	}
 	if _, err := os.Stat(filepath.Join(verifDir, "bin", "vinstr")); err == nil {
 		for id := range needsInstr {
 			if _, err := buildWorker(id, cache, work); err != nil {
@@ -584,4 +601,69 @@ func setup(cache, work string) int {
 	}
 	fmt.Println("setup ok")
 	return 0
+}
+
+// racePass builds the worker with the Go race detector (plain overlay, no
+// scheduler instrumentation) and runs the C10 scenario bodies free-running.
+// It is an auxiliary cross-check for code the scheduler does not hook.
+func racePass(tier, cache, work string, wenv []string) ([]Violation, string, error) {
+	ov := overlayFor(work, nil)
+	bin := filepath.Join(work, "vworker-race")
+	env := goEnv(cache)
+	for i, e := range env {
+		if strings.HasPrefix(e, "GOFLAGS=") {
+			env[i] = "GOFLAGS=-mod=readonly"
+		}
+		if strings.HasPrefix(e, "CGO_ENABLED=") {
+			env[i] = "CGO_ENABLED=1"
+		}
+	}
+	if out, err := run(repoDir, env, "go", "build", "-race", "-tags", "verif", "-overlay", ov, "-o", bin, "./cmd/vworker"); err != nil {
+		return nil, "", fmt.Errorf("race build failed: %v\n%s", err, out)
+	}
+	if tier == "build-only" {
+		return nil, "", nil
+	}
+	rounds := "4"
+	if tier == "thorough" {
+		rounds = "40"
+	}
+	cmd := exec.Command(bin, "racepass", rounds)
+	cmd.Env = append(wenv, "GORACE=halt_on_error=0 exitcode=0")
+	var buf bytes.Buffer
+	cmd.Stdout, cmd.Stderr = &buf, &buf
+	if err := cmd.Run(); err != nil {
+		return nil, "", fmt.Errorf("racepass: %v\n%s", err, tail(buf.String(), 3000))
+	}
+	out := buf.String()
+	if !strings.Contains(out, "racepass done") {
+		return nil, "", fmt.Errorf("racepass did not finish:\n%s", tail(out, 3000))
+	}
+	blocks := strings.Split(out, "WARNING: DATA RACE")
+	frameRe := regexp.MustCompile(`/repo/((?:internal|pkg|cmd/commands)/[^\s:]+\.go):\d+`)
+	seen := map[string]bool{}
+	var vs []Violation
+	for _, b := range blocks[1:] {
+		fr := frameRe.FindAllStringSubmatch(b, -1)
+		a, bb := "?", "?"
+		if len(fr) > 0 {
+			a = fr[0][1]
+		}
+		// first repository frame of the second stack ("Previous ... by goroutine")
+		if i := strings.Index(b, "Previous"); i >= 0 {
+			if fr2 := frameRe.FindStringSubmatch(b[i:]); fr2 != nil {
+				bb = fr2[1]
+			}
+		}
+		pair := []string{a, bb}
+		sort.Strings(pair)
+		sig := "C10 race detector (free-running pass): " + pair[0] + " / " + pair[1] + " [nondet-ok]"
+		if seen[sig] {
+			continue
+		}
+		seen[sig] = true
+		cs, _ := json.Marshal(map[string]any{"scenario": "racepass", "note": "free-running -race pass; rerun `vcheck C10` to reproduce"})
+		vs = append(vs, Violation{Sig: sig, Detail: tail("WARNING: DATA RACE"+b, 3000), Case: cs})
+	}
+	return vs, fmt.Sprintf("free-running -race pass: %s rounds x 6 scenarios, %d race report(s), %d distinct", rounds, len(blocks)-1, len(vs)), nil
 }
